@@ -45,3 +45,11 @@ Proof. unfold src_setup_hom_rate_series. cbv zeta. rewrite src_hom_rate_series_e
 
 Theorem src_hom_visibility_eq J g dt : src_hom_visibility J g dt = setup_hom_visibility J g dt.
 Proof. unfold src_hom_visibility. cbv zeta. rewrite src_hom_rate_eq. reflexivity. Qed.
+
+Theorem src_is_model g f gs tau norm taus :
+  src_hom_rate g f gs tau norm = hom_rate g f gs tau norm /\ src_hom_rate_series g f gs taus = hom_rate_series g f gs taus.
+Proof. split; [apply src_hom_rate_eq|apply src_hom_rate_series_eq]. Qed.
+
+Theorem src_wrappers J g taus delta_t :
+  src_setup_hom_rate_series J g taus = setup_hom_rate_series J g taus /\ src_hom_visibility J g delta_t = setup_hom_visibility J g delta_t.
+Proof. split; [apply src_setup_hom_rate_series_eq|apply src_hom_visibility_eq]. Qed.
